@@ -13,6 +13,10 @@ try:
     from .canon_table import TABLE
 except Exception:      # table absent: no canonicalisation
     TABLE = {}
+try:
+    from .canon_table import COMPARES
+except Exception:
+    COMPARES = {}
 
 _PC = {}
 
@@ -142,6 +146,41 @@ def _normalise_negated_ifs(fn):
     return k
 
 
+def _merge_nested_ifs(fn):
+    """`if a: (if b: X)` with no else on either level is rewritten to `if a and b: X` (behaviour-preserving)."""
+    k = 0
+    changed = True
+    while changed:
+        changed = False
+        for n in ast.walk(fn):
+            if isinstance(n, ast.If) and not n.orelse and len(n.body) == 1 and isinstance(n.body[0], ast.If) and not n.body[0].orelse:
+                inner = n.body[0]
+                vals = []
+                for t in (n.test, inner.test):
+                    vals += t.values if isinstance(t, ast.BoolOp) and isinstance(t.op, ast.And) else [t]
+                n.test = ast.copy_location(ast.BoolOp(op=ast.And(), values=vals), n.test)
+                n.body = inner.body
+                k += 1
+                changed = True
+    return k
+
+
+def _restore_compare_order(fn, ref):
+    """`b == a` is rewritten to `a == b` when the reference tree writes this comparison as `a == b` (==/!= are symmetric for the
+    str / int / None operands used in the analysed functions)."""
+    k = 0
+    ref = set(ref)
+    for n in ast.walk(fn):
+        if isinstance(n, ast.Compare) and len(n.ops) == 1 and isinstance(n.ops[0], (ast.Eq, ast.NotEq)):
+            if U(n) in ref:
+                continue
+            sw = ast.Compare(left=n.comparators[0], ops=n.ops, comparators=[n.left])
+            if U(sw) in ref:
+                n.left, n.comparators = sw.left, sw.comparators
+                k += 1
+    return k
+
+
 def canonicalise(repo):
     """mutates the function ASTs of `repo` in place; returns the list of renames performed"""
     done = []
@@ -153,6 +192,9 @@ def canonicalise(repo):
                 k = _normalise_negated_ifs(fn)
                 if k:
                     done.append((m.name, fn.name, "<negated if/else normalised>", k))
+                k = _merge_nested_ifs(fn)
+                if k:
+                    done.append((m.name, fn.name, "<nested ifs merged>", k))
     for m in repo.modules.values():
         for st in m.tree.body:
             fns = [st] if isinstance(st, (ast.FunctionDef, ast.AsyncFunctionDef)) else \
@@ -193,4 +235,22 @@ def canonicalise(repo):
                 changed = True
             if not changed:
                 break
+    for (modname, qual), ref in COMPARES.items():
+        if modname not in repo.modules:
+            continue
+        m = repo.modules[modname]
+        fn = None
+        if "." in qual:
+            cn, mn = qual.split(".", 1)
+            cnode = m.classes.get(cn)
+            if cnode is not None:
+                for x in cnode.body:
+                    if isinstance(x, (ast.FunctionDef, ast.AsyncFunctionDef)) and x.name == mn:
+                        fn = x
+        else:
+            fn = m.functions.get(qual)
+        if fn is not None:
+            k = _restore_compare_order(fn, ref)
+            if k:
+                done.append((modname, qual, "<==/!= operand order restored>", k))
     return done
